@@ -32,7 +32,7 @@ impl CssString {
                             }
                             Some(&c) => {
                                 if let Some(digit) = c.to_digit(16) {
-                                    val = val * 10 + digit;
+                                    val = val * 16 + digit;
                                     got_num = true;
                                     iter.next();
                                 } else if !got_num {
